@@ -947,3 +947,11 @@ mod test {
         }
     }
 }
+
+#[cfg(feature = "verif")]
+impl Decoder {
+    /// (current dynamic table size, current limit)
+    pub fn verif_table_size(&self) -> (usize, usize) {
+        (self.table.size, self.table.max_size)
+    }
+}
